@@ -149,6 +149,14 @@ def spell_alpha(rng, rgb, alpha, kind=None):
 POISON_STR = ["nope", "#12", "#12345", "rgb(300,0,0)", "rgb(1,2)", "", " ", "inherit", "currentcolor", "transparent",
               "var(--x)", "hsl(120)", "#ggg", "rgb(a,b,c)", "12", "url(x)", "rgba(1,2,3,7e9)",
               "[/]", "[/b]", "#[/b]", "var[/x]", "[bold]red", "{0}", "%s", "%(x)s", "\\", "red\n", "<b>", "a\x00b", "\t\n"]
+# modern / unusual CSS colour syntaxes: whether the library reads them or rejects them, its answer must not depend on
+# anything but the string (used only where the reference is the same call in a pristine process)
+NEAR_CSS = ["hsl(120deg, 50%, 40%)", "hsl(0.5turn, 50%, 40%)", "hsl(3.4rad, 50%, 40%)", "hsl(200grad, 50%, 40%)", "hsl(120deg 50% 40%)",
+            "hsla(210deg, 60%, 45%, 0.8)", "rgb(10 20 30 / 50%)", "#11223344", "#1234", "hwb(120 10% 20%)", "lab(50% 40 30)",
+            "lch(50% 40 30)", "oklch(0.6 0.1 200)", "oklab(0.6 0.1 0.1)", "color(srgb 0.2 0.4 0.6)", "color-mix(in srgb, red, blue)",
+            "rgb(calc(10*2), 0, 0)", "light-dark(#000, #fff)", "canvastext", "rebeccapurple", "RebeccaPurple", "rgb(50% 20% 10%)",
+            "hsl(120, 50%, 40%, 0.5)", "rgba(10, 20, 30)", "rgb(10.5, 20.2, 30.9)", "rgb(1e2, 0, 0)", "hsl(-120, 50%, 40%)",
+            "hsl(480, 50%, 40%)", "hsl(120, 50, 40)", "rgb(10,20,30,)", "rgb(10;20;30)", "0x112233", "112233", "#112233 ", "# 112233"]
 POISON_OBJ = [None, (1, 2), (1, 2, 3, 4, 5), (300, 0, 0), (-1, 0, 0), ("a", "b", "c"), 3.5, (None, None, None), [], ()]
 CSS_KEYWORDS = ["inherit", "currentcolor", "transparent", "initial", "unset", "currentColor"]
 
@@ -259,7 +267,7 @@ def pick_text(rng, bg, thr, band):
 ALL_FEATURES = (
     "vars", "var-fallback", "var-undefined", "var-chain", "var-shared", "root-direct-color", "root-and-html",
     "important", "repeat-decl", "prop-case", "nesting", "bg-var", "keywords", "opaque-atrules", "vendor-hacks",
-    "star-hack", "non-ascii", "crlf", "bom", "cdo-cdc", "alpha-text", "comments", "no-color-rules", "odd-strings", "dup-root", "nested-root", "unicode-seps", "dup-selectors", "own-colour-elsewhere", "css-nesting", "comment-in-value", "stale-charset", "var-names", "nested-root-color", "many-rules",
+    "star-hack", "non-ascii", "crlf", "bom", "cdo-cdc", "alpha-text", "comments", "no-color-rules", "odd-strings", "dup-root", "nested-root", "unicode-seps", "dup-selectors", "own-colour-elsewhere", "css-nesting", "comment-in-value", "stale-charset", "var-names", "nested-root-color", "many-rules", "one-notation",
 )
 # features outside what the reference cascade of C08 models or what C08's statement quantifies over
 C09_ONLY = ("opaque-atrules", "vendor-hacks", "star-hack", "crlf", "bom", "odd-strings", "dup-root", "unicode-seps", "dup-selectors", "css-nesting", "comment-in-value", "stale-charset", "nested-root-color")
@@ -347,6 +355,13 @@ class SheetGen:
         return (f % n) + self.tag
 
     def literal(self, rgb):
+        if "one-notation" in self.feats:
+            # a stylesheet written in ONE colour notation throughout (a design system in hsl(), a generated file in rgb%):
+            # whatever is special about reading and re-writing that notation is exercised by most rules of the run
+            if getattr(self, "_notation", None) is None:
+                self._notation = self.rng.choice(("hsl", "hsl", "hsl", "rgbpct", "rgb", "name", "hex3"))
+            if self.rng.random() < 0.75:
+                return spell(self.rng, rgb, (self._notation,))[0]
         return spell(self.rng, rgb, CSS_SPELLINGS)[0]
 
     def new_var(self, rgb, value=None):
@@ -389,7 +404,9 @@ class SheetGen:
                 name = self.new_var(rgb)
                 kind = "var"
                 if "var-chain" in f and r.random() < 0.35:
-                    name = self.new_var(rgb, "var(%s)" % name)
+                    # a chain of custom properties of any length (design-token layers): mostly 2, sometimes dozens
+                    for _ in range(r.choice((1, 1, 1, 2, 3, 5, 8, 9, 12, 20, 40))):
+                        name = self.new_var(rgb, "var(%s)" % name)
                     kind = "var-chain"
             if "var-fallback" in f and r.random() < 0.4:
                 return "var(%s, %s)" % (name, self.literal(rand_rgb(r))), kind + "+fallback"
@@ -617,7 +634,7 @@ class SheetGen:
                 items.insert(0, e)
             else:
                 items.insert(r.randrange(len(items) + 1), e)
-        sheet = {"items": items, "style": r.choice(("pretty", "compact", "loose")), "crlf": "crlf" in f and r.random() < 0.7,
+        sheet = {"items": items, "style": r.choice(("pretty", "compact", "loose")), "crlf": ("crlf" in f and r.random() < 0.7) and r.choice((True, True, "mixed", "mixed", "cr")),
                  "bom": "bom" in f and r.random() < 0.7,
                  "charset": (r.choice(("windows-1252", "iso-8859-1", "latin1", "UTF-8")) if "stale-charset" in f else ("opaque-atrules" in f and r.random() < 0.3)),
                  "final_nl": r.random() < 0.8}
@@ -678,7 +695,13 @@ def render(sheet):
         txt = "@charset \"%s\";\n" % (sheet["charset"] if isinstance(sheet["charset"], str) else "utf-8") + txt
     if not sheet.get("final_nl", True):
         txt = txt.rstrip("\n")
-    if sheet.get("crlf"):
+    if sheet.get("crlf") == "mixed":
+        # a file edited on two platforms: some lines end in CRLF, some in LF
+        parts = txt.split("\n")
+        txt = "".join(p + ("\r\n" if k % 2 == 0 else "\n") for k, p in enumerate(parts[:-1])) + parts[-1]
+    elif sheet.get("crlf") == "cr":
+        txt = txt.replace("\n", "\r")
+    elif sheet.get("crlf"):
         txt = txt.replace("\n", "\r\n")
     if sheet.get("bom"):
         txt = "\ufeff" + txt
